@@ -121,15 +121,17 @@ fn is_workspaceish(tcx: TyCtxt<'_>, did: DefId) -> bool {
 fn own_walk<'tcx>(
     tcx: TyCtxt<'tcx>,
     ty: Ty<'tcx>,
-    via_arc: bool,
+    via: (bool, bool),
     depth: usize,
-    seen: &mut HashSet<(Ty<'tcx>, bool)>,
+    seen: &mut HashSet<(Ty<'tcx>, (bool, bool))>,
     out: &mut Vec<String>,
 ) {
-    if depth > 12 || !seen.insert((ty, via_arc)) {
+    if depth > 12 || !seen.insert((ty, via)) {
         return;
     }
+    let (via_arc, via_fut) = via;
     let mut add = |p: String, out: &mut Vec<String>| {
+        let p = if via_fut { format!("{}@fut", p) } else { p };
         let p = if via_arc { format!("{}@arc", p) } else { p };
         if !out.contains(&p) {
             out.push(p);
@@ -149,37 +151,37 @@ fn own_walk<'tcx>(
                 for v in adt.variants() {
                     for f in v.fields.iter() {
                         let fty = f.ty(tcx, args);
-                        own_walk(tcx, fty, via_arc, depth + 1, seen, out);
+                        own_walk(tcx, fty, via, depth + 1, seen, out);
                     }
                 }
             } else {
                 for a in args.iter() {
                     if let Some(t) = a.as_type() {
-                        own_walk(tcx, t, via_arc || arcish, depth + 1, seen, out);
+                        own_walk(tcx, t, (via_arc || arcish, via_fut), depth + 1, seen, out);
                     }
                 }
             }
         }
         ty::Tuple(ts) => {
             for t in ts.iter() {
-                own_walk(tcx, t, via_arc, depth + 1, seen, out);
+                own_walk(tcx, t, via, depth + 1, seen, out);
             }
         }
-        ty::Array(t, _) | ty::Slice(t) | ty::Pat(t, _) => own_walk(tcx, *t, via_arc, depth + 1, seen, out),
+        ty::Array(t, _) | ty::Slice(t) | ty::Pat(t, _) => own_walk(tcx, *t, via, depth + 1, seen, out),
         ty::Closure(did, args) => {
             add(format!("closure:{}", item_key(tcx, *did)), out);
             let up = args.as_closure().tupled_upvars_ty();
-            own_walk(tcx, up, via_arc, depth + 1, seen, out);
+            own_walk(tcx, up, (via_arc, true), depth + 1, seen, out);
         }
         ty::Coroutine(did, args) => {
             add(format!("coroutine:{}", item_key(tcx, *did)), out);
             let up = args.as_coroutine().tupled_upvars_ty();
-            own_walk(tcx, up, via_arc, depth + 1, seen, out);
+            own_walk(tcx, up, (via_arc, true), depth + 1, seen, out);
         }
         ty::CoroutineClosure(did, args) => {
             add(format!("closure:{}", item_key(tcx, *did)), out);
             let up = args.as_coroutine_closure().tupled_upvars_ty();
-            own_walk(tcx, up, via_arc, depth + 1, seen, out);
+            own_walk(tcx, up, (via_arc, true), depth + 1, seen, out);
         }
         ty::Alias(at) => {
             let did = at.kind.def_id();
@@ -190,11 +192,8 @@ fn own_walk<'tcx>(
                 }
                 _ => add(format!("alias:{}", item_path(tcx, did)), out),
             }
-            for a in at.args.iter() {
-                if let Some(t) = a.as_type() {
-                    own_walk(tcx, t, via_arc, depth + 1, seen, out);
-                }
-            }
+            // the arguments of an alias (Self type, GAT parameters, captured generics of an
+            // opaque future) are not owned by a value of the alias type: do not descend
         }
         ty::Param(p) => add(format!("param:{}", p.name), out),
         ty::Dynamic(preds, _) => {
@@ -209,7 +208,7 @@ fn own_walk<'tcx>(
 fn own_of<'tcx>(tcx: TyCtxt<'tcx>, ty: Ty<'tcx>) -> Vec<String> {
     let mut out = Vec::new();
     let mut seen = HashSet::new();
-    own_walk(tcx, ty, false, 0, &mut seen, &mut out);
+    own_walk(tcx, ty, (false, false), 0, &mut seen, &mut out);
     out
 }
 
@@ -625,7 +624,90 @@ fn body_json<'tcx>(tcx: TyCtxt<'tcx>, def: LocalDefId, body: &Body<'tcx>, phase:
         blocks.push(obj(&[("cleanup", b(data.is_cleanup)), ("stmts", arr(&stmts)), ("term", t)]));
     }
     items.push(("blocks", arr(&blocks)));
+    if phase == "promoted" {
+        items.push(("mi", maybe_init_json(tcx, body)));
+    }
     obj(&items)
+}
+
+const DEFAULT_TRACK: &[&str] = &[
+    "WriteTransaction",
+    "write_behind::WriteBatch",
+    "LockGuard",
+    "RwLockReadGuard",
+    "RwLockWriteGuard",
+    "MutexGuard",
+    "ActiveInputSessionGuard",
+    "ActiveComputationGuard",
+    "UndoRegisterCallee",
+    "QueryLock",
+    "OccupiedEntry",
+    "VacantEntry",
+    "dashmap::mapref",
+    "ShardGuard",
+    "sharded::",
+    "Notified",
+];
+
+fn tracked_of<'tcx>(tcx: TyCtxt<'tcx>, ty: Ty<'tcx>, track: &[String]) -> Vec<String> {
+    own_of(tcx, ty).into_iter().filter(|o| track.iter().any(|t| o.contains(t.as_str()))).collect()
+}
+
+/// Maybe-initialised move paths (rustc's own analysis, the one drop elaboration
+/// uses) that own a tracked resource, sampled before every Yield / Drop /
+/// Return / Call terminator.
+fn maybe_init_json<'tcx>(tcx: TyCtxt<'tcx>, body: &Body<'tcx>) -> String {
+    use rustc_mir_dataflow::impls::MaybeInitializedPlaces;
+    use rustc_mir_dataflow::move_paths::MoveData;
+    use rustc_mir_dataflow::Analysis;
+    let track: Vec<String> = match std::env::var("QBV_TRACK") {
+        Ok(v) if !v.is_empty() => v.split(',').map(|x| x.to_string()).collect(),
+        _ => DEFAULT_TRACK.iter().map(|x| x.to_string()).collect(),
+    };
+    let md = MoveData::gather_moves(body, tcx, |_| true);
+    // per move path: tracked own-set
+    let mut tr: Vec<Vec<String>> = Vec::with_capacity(md.move_paths.len());
+    for mp in md.move_paths.iter() {
+        let ty = mp.place.ty(body, tcx).ty;
+        tr.push(tracked_of(tcx, ty, &track));
+    }
+    if tr.iter().all(|t| t.is_empty()) {
+        return "{}".into();
+    }
+    let mut kids: Vec<bool> = vec![false; md.move_paths.len()];
+    for (mpi, mp) in md.move_paths.iter_enumerated() {
+        if !tr[mpi.as_usize()].is_empty() {
+            if let Some(p) = mp.parent {
+                kids[p.as_usize()] = true;
+            }
+        }
+    }
+    let mut cursor = MaybeInitializedPlaces::new(tcx, body, &md).iterate_to_fixpoint(tcx, body, None).into_results_cursor(body);
+    let mut out: Vec<String> = Vec::new();
+    for (bbi, data) in body.basic_blocks.iter_enumerated() {
+        let k = &data.terminator().kind;
+        if !matches!(k, TerminatorKind::Yield { .. } | TerminatorKind::Drop { .. } | TerminatorKind::Return | TerminatorKind::Call { .. }) {
+            continue;
+        }
+        let loc = rustc_middle::mir::Location { block: bbi, statement_index: data.statements.len() };
+        cursor.seek_before_primary_effect(loc);
+        let state = cursor.get();
+        let mut here: Vec<String> = Vec::new();
+        for (mpi, mp) in md.move_paths.iter_enumerated() {
+            let t = &tr[mpi.as_usize()];
+            if t.is_empty() {
+                continue;
+            }
+            if state.contains(mpi) {
+                let tj: Vec<String> = t.iter().map(|x| s(x)).collect();
+                here.push(format!("[{},{},{}]", place_json(tcx, body, &mp.place), arr(&tj), b(kids[mpi.as_usize()])));
+            }
+        }
+        if !here.is_empty() {
+            out.push(format!("{}:{}", s(&bbi.as_usize().to_string()), arr(&here)));
+        }
+    }
+    format!("{{{}}}", out.join(","))
 }
 
 fn extract_body<'tcx>(tcx: TyCtxt<'tcx>, def: LocalDefId) {
@@ -756,6 +838,7 @@ fn tables<'tcx>(tcx: TyCtxt<'tcx>) {
                     ("output", obj(&[("ty", s(&ty_str(out))), ("own", arr(&own))])),
                     ("vis", s(&format!("{:?}", tcx.visibility(did)))),
                     ("is_unsafe", b(sig.safety().is_unsafe())),
+                    ("exported", b(tcx.effective_visibilities(()).is_reachable(ldid))),
                 ]));
             }
             _ => {}
